@@ -11,6 +11,7 @@ of mostly the Jacobian and reference cell data.
 # SPDX-License-Identifier:    LGPL-3.0-or-later
 
 import warnings
+from collections import defaultdict
 from functools import reduce
 from itertools import combinations
 
@@ -57,8 +58,9 @@ class GeometryLoweringApplier(MultiFunction):
     def __init__(self, preserve_types=()):
         """Initialise."""
         MultiFunction.__init__(self)
-        # Store preserve_types as boolean lookup table
-        self._preserve_types = [False] * Expr._ufl_num_typecodes_
+        # Store preserve_types as boolean lookup table, indexed by
+        # typecode (types may be registered after this object is made)
+        self._preserve_types = defaultdict(bool)
         for cls in preserve_types:
             self._preserve_types[cls._ufl_typecode_] = True
 
